@@ -23,13 +23,15 @@ UNARY = ["negative", "positive", "absolute", "logical_not", "invert", "sqrt", "s
 BINARY = ["add", "subtract", "multiply", "true_divide", "floor_divide", "remainder", "power", "maximum", "minimum",
           "equal", "not_equal", "less", "less_equal", "greater", "greater_equal",
           "bitwise_and", "bitwise_or", "bitwise_xor", "left_shift", "right_shift", "logical_and", "logical_or", "logical_xor"]
+# copysign is used in directed float/float cases only: for integer operands numpy resolves it to the smallest float type, which the
+# statement's classes (arithmetic, comparison, bitwise, logical ufuncs) do not cover
 OPS = {"add": operator.add, "subtract": operator.sub, "multiply": operator.mul, "true_divide": operator.truediv,
        "floor_divide": operator.floordiv, "remainder": operator.mod, "power": operator.pow, "equal": operator.eq,
        "not_equal": operator.ne, "less": operator.lt, "less_equal": operator.le, "greater": operator.gt,
        "greater_equal": operator.ge, "bitwise_and": operator.and_, "bitwise_or": operator.or_, "bitwise_xor": operator.xor,
        "left_shift": operator.lshift, "right_shift": operator.rshift,
        "negative": operator.neg, "positive": operator.pos, "absolute": abs, "invert": operator.invert}
-KINDS = ["unary", "ra", "npscalar", "pyscalar", "0d", "col", "collist", "bad_total", "bad_same_total", "bad_rows"]
+KINDS = ["unary", "ra", "npscalar", "pyscalar", "0d", "col", "collist", "bad_total", "bad_same_total", "bad_rows", "bad_onerow"]
 FLOOR_TAGS = ["k:" + k for k in KINDS] + ["side:L", "side:R", "spelling:operator", "spelling:ufunc", "kind:b", "kind:i", "kind:u", "kind:f",
                                            "v:small", "v:extreme", "v:nonfinite", "norows", "allempty", "e-first", "e-last", "e-mid", "e-consec", "e-none", "onerow-col"]
 FLOOR_MONITORS = ["c04:compare", "c04:must-refuse", "c04:operands-unchanged", "inv:ragged"]
@@ -72,7 +74,7 @@ def run(case):
         if kind == "ra":
             ob = np.array(ov, dtype=dt2)
             other = RA(ob.copy(), list(lens))
-        elif kind in ("bad_total", "bad_same_total", "bad_rows"):
+        elif kind in ("bad_total", "bad_same_total", "bad_rows", "bad_onerow"):
             blens = ov["lens"]
             ob = np.array(ov["vals"], dtype=dt2)
             other = RA(ob.copy(), list(blens))
@@ -142,6 +144,11 @@ def run(case):
         if alt.ok and alt.value.shape == g.shape and same_array(g, alt.value.astype(g.dtype)):
             tags.append("numpy-scalar-fastpath")
             exp = g
+    if same_array(g, exp) and g.dtype.kind == "f" and g.size:
+        # bit-level agreement on the sign of zeros and infinities (a column of +0.0 / -0.0 entries compares equal but is not the same)
+        fin = ~np.isnan(exp)
+        if not np.array_equal(np.signbit(g)[fin], np.signbit(exp)[fin]):
+            return violated("%s gives %s, numpy row by row gives %s (the signs of zeros differ)" % (describe(), short(g, 200), short(exp, 200)), tags + ["sign-of-zero"], got=g, expected=exp)
     if not same_array(g, exp):
         return violated("%s gives %s, numpy row by row gives %s" % (describe(), short(g, 200), short(exp, 200)), tags, got=g, expected=exp)
     CTX.tick("c04:operands-unchanged")
@@ -177,6 +184,15 @@ def gen_case(rng, lens, dtype, vclass, uf=None, kind=None, side=None, dtype2=Non
     dtype2 = dtype2 or rng.choice(gen.DT_ALL)
     if kind == "ra":
         other = _vals(rng, dtype2, tot, vclass)
+    elif kind == "bad_onerow":
+        # a one-row operand whose flat data would broadcast against the other operand's flat data
+        L = lens[0] if lens and len(set(lens)) == 1 and lens[0] in (0, 1) else None
+        if L is None or n == 1:
+            lens = [rng.choice([0, 1])] * rng.choice([0, 2, 3, 4]) if rng.random() < 0.8 else []
+            L = lens[0] if lens else rng.choice([0, 1])
+            vals = _vals(rng, dtype, sum(lens), vclass)
+        other = {"lens": [L], "vals": _vals(rng, dtype2, L, "small")}
+        return mk_case(lens, dtype, vals, uf, kind, side, other, dtype2, op, vclass)
     elif kind in ("bad_total", "bad_same_total", "bad_rows"):
         bl = list(lens)
         if kind == "bad_total":
@@ -244,6 +260,16 @@ def directed():
                           [float("-inf"), -0.0, 7.25, 1.0, 0.0][:len(lens)], dtype2, True, "nonfinite")
         yield mk_case(lens, "bool", _vals(rng, "bool", sum(lens), "small"), "logical_xor", "col", "R", [True, False, True, True][:len(lens)], "bool")
         yield mk_case(lens, "int64", _vals(rng, "int64", sum(lens), "small"), "add", "col", "R", [10, 20, 30, 40][:len(lens)], "int64")
+    # columns of signed zeros with sign-sensitive ufuncs; one-row ragged operands that would broadcast
+    for uf in ["true_divide", "copysign", "multiply", "maximum"]:
+        for col in ([0.0, -0.0, -0.0], [-0.0, 0.0, 0.0], [-0.0, -0.0, 0.0]):
+            for side in "LR":
+                yield mk_case([2, 1, 3], "float64", [1.0, -2.0, 3.0, -0.0, 0.0, 5.5], uf, "col", side, col, "float64", False, "nonfinite")
+                yield mk_case([2, 0, 3], "float32", [1.0, -2.0, 3.0, -0.0, 0.0], uf, "col", side, col, "float32", True, "nonfinite")
+    for lens_ in ([1, 1, 1], [0, 0], [], [1, 1], [0, 0, 0, 0]):
+        for side in "LR":
+            yield mk_case(lens_, "int64", list(range(1, sum(lens_) + 1)), "add", "bad_onerow", side, {"lens": [lens_[0] if lens_ else 1], "vals": [10][:lens_[0] if lens_ else 1]}, "int64")
+            yield mk_case(lens_, "int64", list(range(1, sum(lens_) + 1)), "add", "bad_onerow", side, {"lens": [lens_[0] if lens_ else 0], "vals": [10][:lens_[0] if lens_ else 0]}, "int64")
     # python scalars must follow numpy's weak promotion (F04a), np.bool_ scalars are accepted (F04b)
     for dtype in ["uint8", "int8", "int16", "float32", "bool", "uint64", "int64", "float64"]:
         for s in PYSCALARS:
